@@ -524,10 +524,13 @@ def parse_global_head(ln, mod):
     p = Parser(strip_meta(ln), mod)
     nm = p.name('@'); p.expect('=')
     ext = False
+    tls = False
     while p.peekword() in LINKAGE:
         w = p.word()
         if w in ('external', 'extern_weak'): ext = True
-    m = p.rx(r'thread_local(\(\w+\))?')
+        if w == 'thread_local':
+            tls = True; p.rx(r'\(\w+\)')
+    m = p.rx(r'thread_local(\(\w+\))?') or tls
     while p.peekword() in LINKAGE: p.word()
     kind = p.word()   # global | constant | alias
     if kind == 'alias':
